@@ -4,7 +4,7 @@ import market_checks
 PROP = "C08"
 LEAN_MODULES = ["PamsProps.C08"]
 NAMESPACES = ["Pams.C08"]
-DRIVERS = ["Market"]
+DRIVERS = ["Market", "Sim"]
 TRUSTED = [
     "modelled, not verified: heapq (abstracted to the sorted list; pop order compared on every state), Order.__eq__-based list.remove, IEEE doubles used only through <,== (monotone integer keys)",
     "generators/abstraction in harness/impl_market.py",
